@@ -37,6 +37,20 @@ def run(ctx):
     rule_same_text(ctx, facts, "C06-R3")
     from .finder import rule_statement_local_state
     rule_statement_local_state(ctx, facts, "C06-R2")
+    # "after an edit run that exits 0 ...": a run in which some file could not be updated must not exit 0 (C08 as a premise:
+    # every storage error reaches a `failure: true` result, results are never dropped, the flag decides the exit status)
+    from . import c08 as _c08
+
+    class _AllAs:
+        def __init__(s, c, rule):
+            s.c, s.rule = c, rule
+
+        def check(s, cond, rule, key, what, where="", detail=None):
+            return s.c.check(cond, s.rule + "/" + rule, key, what, where, detail)
+
+        def bad(s, rule, key, msg, where="", detail=None):
+            s.c.bad(s.rule + "/" + rule, key, msg, where, detail)
+    _run_as(_c08, _AllAs(ctx, "C06-R5"), ctx)
     # R1 — reuse C12's automata obligations under C06 names
     sub = _Only(ctx, "C06-R1", ("regex-language", "regex-anchor", "regex-groups", "regex-group-span", "token-shape", "token-spelling",
                                 "token-recognised", "token-doc-regex", "token-display", "anchor|", "template-decode", "parse-u32", "group-1", "some-payload"))
